@@ -162,7 +162,7 @@ theorem C18_reachable (s : Sys) (l : List Step) (hb : s.bsei.WF) (hs : s.stsei.W
       obtain ⟨p1, p2, p3, p4, p5⟩ := hp
       cases handle_touch x x' m ms hx with
       | none h _ _ _ => rw [h.bsei, h.stsei]; exact ⟨p1, p2, p3, p4, p5⟩
-      | hub s1 sender funds hm _ _ _ hx' b t r d g => rw [b, t]; exact ⟨p1, p2, p3, p4, p5⟩
+      | hub s1 sender funds hm _ _ _ _ hx' b t r d g => rw [b, t]; exact ⟨p1, p2, p3, p4, p5⟩
       | bsei s1 sender funds tm _ _ hx' h t r d g =>
         have st := C18_bsei_step _ _ _ _ _ _ _ _ _ p1 hx'
         rw [t]; exact ⟨st.2.1, p2, by rw [st.2.2.2]; exact p3, p4, by rw [st.2.2.1]; exact p5⟩
